@@ -165,6 +165,23 @@ func runPVSS(c *vf.Check, gn string, n, t int) {
 					x.Failf(pk+"/honest-dec-batch", "%s: batch keeps %d of %d honest decrypted shares", cfg, len(D), n)
 					return
 				}
+				// DecShareBatch of trustee 0: its own share listed under its own key, under another trustee's key and under
+				// an altered key - only the first entry is a valid (key, share) pair
+				if n >= 2 {
+					B := suite.Point().Base()
+					Xs := []kyber.Point{ss.X[0].Clone(), ss.X[1].Clone(), suite.Point().Add(ss.X[0], B)}
+					sHs := []kyber.Point{ss.sH[0].Clone(), ss.sH[0].Clone(), ss.sH[0].Clone()}
+					gcs := []kyber.Scalar{ss.gc.Clone(), ss.gc.Clone(), ss.gc.Clone()}
+					es := []*pvss.PubVerShare{cloneShare(ss.enc[0]), cloneShare(ss.enc[0]), cloneShare(ss.enc[0])}
+					K, E, Dd, err := pvss.DecShareBatch(suite, H, Xs, sHs, ss.x[0], gcs, es)
+					if err != nil {
+						x.Failf(pk+"/DecShareBatch", "%s: %v", cfg, err)
+					} else if len(K) != 1 || len(E) != 1 || len(Dd) != 1 || !K[0].Equal(ss.X[0]) {
+						x.Failf(pk+"/DecShareBatch-wrong-key-accepted", "%s: DecShareBatch returns %d entries for one valid (key, share) pair followed by the same share under another trustee's key and under an altered key", cfg, len(Dd))
+					} else if err := pvss.VerifyDecShare(suite, G, ss.X[0], ss.enc[0], Dd[0]); err != nil {
+						x.Failf(pk+"/DecShareBatch", "%s: the share decrypted by DecShareBatch does not verify: %v", cfg, err)
+					}
+				}
 				ok = true
 			})
 			if !ok {
@@ -245,6 +262,9 @@ func runPVSS(c *vf.Check, gn string, n, t int) {
 				{"P.VG+B", func(s *shareSet, i int) { s.enc[i].P.VG = suite.Point().Add(s.enc[i].P.VG, B) }, false},
 				{"P.VH+B", func(s *shareSet, i int) { s.enc[i].P.VH = suite.Point().Add(s.enc[i].P.VH, B) }, false},
 				{"P.VG<->P.VH", func(s *shareSet, i int) { s.enc[i].P.VG, s.enc[i].P.VH = s.enc[i].P.VH, s.enc[i].P.VG }, false},
+				{"P.VG negated", func(s *shareSet, i int) { s.enc[i].P.VG = suite.Point().Neg(s.enc[i].P.VG) }, false},
+				{"P.VH negated", func(s *shareSet, i int) { s.enc[i].P.VH = suite.Point().Neg(s.enc[i].P.VH) }, false},
+				{"S.V negated", func(s *shareSet, i int) { s.enc[i].S.V = suite.Point().Neg(s.enc[i].S.V) }, false},
 				{"P=other's", func(s *shareSet, i int) { s.enc[i].P = cloneShare(s.enc[j(i)]).P }, false},
 				{"share<->other", func(s *shareSet, i int) { s.enc[i], s.enc[j(i)] = s.enc[j(i)], s.enc[i] }, false},
 				{"X<->other", func(s *shareSet, i int) { s.X[i], s.X[j(i)] = s.X[j(i)], s.X[i] }, false},
@@ -354,6 +374,9 @@ func runPVSS(c *vf.Check, gn string, n, t int) {
 				{"P.VG+B", func(s *shareSet, i int) { s.dec[i].P.VG = suite.Point().Add(s.dec[i].P.VG, B) }, false},
 				{"P.VH+B", func(s *shareSet, i int) { s.dec[i].P.VH = suite.Point().Add(s.dec[i].P.VH, B) }, false},
 				{"P.VG<->P.VH", func(s *shareSet, i int) { s.dec[i].P.VG, s.dec[i].P.VH = s.dec[i].P.VH, s.dec[i].P.VG }, false},
+				{"P.VG negated", func(s *shareSet, i int) { s.dec[i].P.VG = suite.Point().Neg(s.dec[i].P.VG) }, false},
+				{"P.VH negated", func(s *shareSet, i int) { s.dec[i].P.VH = suite.Point().Neg(s.dec[i].P.VH) }, false},
+				{"S.V negated", func(s *shareSet, i int) { s.dec[i].S.V = suite.Point().Neg(s.dec[i].S.V) }, false},
 				{"dec<->other", func(s *shareSet, i int) { s.dec[i], s.dec[j(i)] = s.dec[j(i)], s.dec[i] }, false},
 				{"S.V+B with P.VH recomputed from its equation", func(s *shareSet, i int) {
 					s.dec[i].S.V = suite.Point().Add(s.dec[i].S.V, B)
@@ -496,6 +519,13 @@ func runDLEQ(c *vf.Check, gn string) {
 			q4 := cp()
 			q4.VH = add(q4.VH, D)
 			tcs = append(tcs, tc{"VH+D", q4, G, H, xG, xH})
+			q7 := cp()
+			q7.VG = suite.Point().Neg(q7.VG)
+			tcs = append(tcs, tc{"VG negated", q7, G, H, xG, xH})
+			q8 := cp()
+			q8.VH = suite.Point().Neg(q8.VH)
+			tcs = append(tcs, tc{"VH negated", q8, G, H, xG, xH})
+			tcs = append(tcs, tc{"xG negated", cp(), G, H, suite.Point().Neg(xG), xH}, tc{"xH negated", cp(), G, H, xG, suite.Point().Neg(xH)})
 			q5 := cp()
 			q5.VG, q5.VH = q5.VH, q5.VG
 			tcs = append(tcs, tc{"VG<->VH", q5, G, H, xG, xH})
